@@ -111,7 +111,7 @@ func (g *schemaGen) stringMap(kind string, alert bool) []string {
 		key = "labels"
 	}
 	if g.f(kind + ":mistyped") {
-		return []string{key + ": " + g.pickf("foo", "[a, b]", "1", "true", "[]", "- a", "''", "!!str x")}
+		return []string{key + ": " + g.pickf("foo", "[a, b]", "1", "true", "[]", "- a", "''", "!!str x", "!!map", "!!map ''", "!!seq")}
 	}
 	if g.f(kind + ":null-or-empty") {
 		return []string{key + ": " + g.pickf("~", "", "{}", "null")}
@@ -263,7 +263,7 @@ func (g *schemaGen) rule(i int) [][]string {
 
 func (g *schemaGen) group(i int, col int) []string {
 	if g.f("group:not-a-mapping") {
-		return []string{pad(col) + "- " + g.pickf("~", "foo", "[a]", "1", "''", "{}", "true")}
+		return []string{pad(col) + "- " + g.pickf("~", "foo", "[a]", "1", "''", "{}", "true", "!!map", "!!map ''", "!!seq")}
 	}
 	var keys [][]string
 	name := fmt.Sprintf("group%d", i)
@@ -310,7 +310,7 @@ func (g *schemaGen) group(i int, col int) []string {
 	var rulesLines []string
 	switch {
 	case g.f("group:rules-mistyped"):
-		rulesLines = []string{"rules: " + g.pickf("foo", "{a: b}", "1", "true", "''", "{}")}
+		rulesLines = []string{"rules: " + g.pickf("foo", "{a: b}", "1", "true", "''", "{}", "!!seq", "!!seq ''", "!!map")}
 	case g.f("group:rules-null"):
 		rulesLines = []string{"rules: " + g.pickf("~", "", "null", "[]")}
 	case g.f("group:rules-duplicated"):
@@ -372,7 +372,7 @@ func (g *schemaGen) doc() string {
 		groupsKey = g.pickf("group", "Groups", "groups ", "'groups '", "rules", "GROUPS", "groups_")
 	}
 	if g.f("top:groups-mistyped") {
-		lines = append(lines, groupsKey+": "+g.pickf("foo", "{a: b}", "1", "true", "''", "{}", "{name: x}"))
+		lines = append(lines, groupsKey+": "+g.pickf("foo", "{a: b}", "1", "true", "''", "{}", "{name: x}", "!!seq", "!!seq ''", "!!map"))
 	} else if g.f("top:groups-null") {
 		lines = append(lines, groupsKey+": "+g.pickf("~", "", "null", "[]"))
 	} else {
